@@ -5,8 +5,8 @@ G:  Codec_Gen: for every schema type (the statement's blocks, headers, work pack
     truncations and length +-1.
 X:  harness/codec decodes each input under recover(), measuring runtime.MemStats.TotalAlloc around the call; a process death inside
     a case (Go's unrecoverable out-of-memory) is attributed to that case and the run resumes after it.
-V:  Codec_Trace: no panic, no process death; accepted <=> Dec(Schema[type], input) accepts (a length that exceeds the remaining input
-    is rejected); alloc <= ALLOC_K + ALLOC_C * len(input)."""
+V:  Codec_Trace: no panic, no process death, alloc <= ALLOC_K + ALLOC_C * len(input).  (Whether the verdict is the specified one is
+    property C13's business, not this statement's; DESIGN.md listed it here, the statement does not.)"""
 import json
 import os
 import sys
@@ -43,7 +43,8 @@ def run(ctx):
                 r = json.loads(ln)
                 f.write(json.dumps({"ty": r["ty"], "cls": r.get("cls", ""), "in": r["in"]}) + "\n")
     else:
-        casep = cc.gen_cases(ctx, binp, k, names, CLASSES, tag="c14", kk=4 if ctx.quick else 8, big_limit=1500 if ctx.quick else 4000)
+        casep = cc.gen_cases(ctx, binp, k, names, CLASSES, tag="c14", kk=3 if ctx.quick else 6, big_limit=700 if ctx.quick else 4000, med_limit=200 if ctx.quick else 1000,
+                                 sample_n=0 if ctx.quick else 4)
     tracep = ctx.tmp + "/trace.ndjson"
     lines = cc.run_dec(ctx, binp, casep, tracep)
     cc.account(ctx, lines, "inputs = encodings of generator values with length prefixes replaced by attacker-chosen values, frame length edits, "
@@ -56,5 +57,5 @@ def run(ctx):
             a = sum(b << (8 * i) for i, b in enumerate(r["alloc"]))
             mx = max(mx, a)
     ctx.cov["actions"]["max_alloc_bytes"] = mx
-    vf.validate_trace(ctx, "Codec_Trace", cc.shard_by_size(lines), constants=cc.trace_constants(k, True, ALLOC_K, ALLOC_C), timeout=1500,
+    vf.validate_trace(ctx, "Codec_Trace", cc.shard_by_size(lines), constants=cc.trace_constants(k, True, ALLOC_K, ALLOC_C, check_verdict=False), timeout=1500,
                       heap="3g", par=6 if ctx.quick else 12, what="decoder unsafe on untrusted bytes")
